@@ -23,6 +23,26 @@ def _okta2code_post(result, val, _ty):
     return {'abbr': And(v != 9, result == abbr(v))}
 
 
+def _okta2code_result(name, ctx, val):
+    """modular use: None for 9, else the abbreviation (the raise condition was already excluded by the caller's path)"""
+    from pyvc.values import SStr, to_int_term
+    v = to_int_term(val)
+    if ctx.branch(v == 9):
+        return None
+    return SStr(abbr(v))
+
+
+def _perc2okta_result(name, ctx, val):
+    from pyvc.lib import SArr
+    from pyvc.values import SInt
+    from pyvc.smt import fresh
+    if isinstance(val, SArr):
+        arr = fresh('p2o_res', z3.ArraySort(z3.IntSort(), z3.IntSort()))
+        return SArr(val.n, lambda i: SInt(arr[i], 'npint'), 'int')
+    r = fresh('p2o_res', z3.IntSort())
+    return SArr(1, lambda i: SInt(r, 'npint'), 'int')
+
+
 def _in_range(x):
     return And(Not(_isnan(x)), _rv(x) >= 0, _rv(x) <= 100)
 
@@ -35,6 +55,7 @@ def register(reg):
                ('npint', {'val': Int(ty='npint')}), ('str', {'val': Str()}), ('None', {'val': Const(None)})],
         raises={'AmpycloudError': _okta2code_raises},
         ensures=_okta2code_post,
+        result=_okta2code_result,
         canaries={'always_few': lambda result, val: result == 'FEW' if result is not None else False},
         native_call=lambda val: __import__('ampycloud').wmo.okta2code(val),
     ))
@@ -57,6 +78,7 @@ def register(reg):
         'ampycloud.wmo.perc2okta',
         properties=('C18', 'C03'),
         cases=[('float', {'val': Float(nan=True)}), ('int', {'val': Int()}), ('array', {'val': ArrOf('float')})],
+        result=_perc2okta_result,
         raises={'AmpycloudError': lambda val, _ty: (
             Exists(0, ln(val), lambda j: Not(_in_range(val[j]))) if _ty['val'] == 'ndarray' else Not(_in_range(val)))},
         ensures=lambda result, val, _ty: (
